@@ -1209,67 +1209,72 @@ func (env *Environment) subscribeToWfState(taskman *task.Manager) {
 		env.unsubscribe = make(chan struct{})
 
 		wfState := wf.GetState()
-		if wfState != sm.ERROR {
-			handlingError := false
-		WORKFLOW_STATE_LOOP:
-			for {
-				select {
-				case wfState = <-notify:
-					// a notification may stand for later ones that found the slot taken: also look at
-					// the current state
-					if wfState != sm.ERROR {
-						if current := wf.GetState(); current == sm.ERROR {
-							wfState = current
-						}
+		if wfState == sm.ERROR {
+			// a critical task failed before this watcher was up: deal with it as with a notification
+			select {
+			case notify <- wfState:
+			default:
+			}
+		}
+		handlingError := false
+	WORKFLOW_STATE_LOOP:
+		for {
+			select {
+			case wfState = <-notify:
+				// a notification may stand for later ones that found the slot taken: also look at
+				// the current state
+				if wfState != sm.ERROR {
+					if current := wf.GetState(); current == sm.ERROR {
+						wfState = current
 					}
-					if wfState == sm.ERROR {
-						if !handlingError {
-							handlingError = true
+				}
+				if wfState == sm.ERROR {
+					if !handlingError {
+						handlingError = true
 
-							time.AfterFunc(500*time.Millisecond, func() { // wait 0.5s for any other tasks to go to ERROR/INACTIVE
-								log.WithField("partition", env.id).
-									WithField("level", infologger.IL_Ops).
-									Error("one of the critical tasks went into ERROR state, transitioning the environment into ERROR")
-								err := env.TryTransition(NewGoErrorTransition(taskman))
-								if err != nil {
-									if env.Sm.Current() == "ERROR" {
-										log.WithField("partition", env.id).
-											WithField("level", infologger.IL_Devel).
-											Info("skipped requested transition to ERROR: environment already in ERROR state")
-									} else {
-										log.WithField("partition", env.id).
-											WithError(err).
-											WithField("level", infologger.IL_Devel).
-											Warn("could not transition gently to ERROR, forcing it")
-										env.setState(wfState.String())
-									}
+						time.AfterFunc(500*time.Millisecond, func() { // wait 0.5s for any other tasks to go to ERROR/INACTIVE
+							log.WithField("partition", env.id).
+								WithField("level", infologger.IL_Ops).
+								Error("one of the critical tasks went into ERROR state, transitioning the environment into ERROR")
+							err := env.TryTransition(NewGoErrorTransition(taskman))
+							if err != nil {
+								if env.Sm.Current() == "ERROR" {
+									log.WithField("partition", env.id).
+										WithField("level", infologger.IL_Devel).
+										Info("skipped requested transition to ERROR: environment already in ERROR state")
+								} else {
+									log.WithField("partition", env.id).
+										WithError(err).
+										WithField("level", infologger.IL_Devel).
+										Warn("could not transition gently to ERROR, forcing it")
+									env.setState(wfState.String())
 								}
-								toStop := env.Workflow().GetTasks().Filtered(func(t *task.Task) bool {
-									t.SetSafeToStop(true)
-									return t.IsSafeToStop()
-								})
-								if len(toStop) > 0 {
-									taskmanMessage := task.NewTransitionTaskMessage(
-										toStop,
-										sm.RUNNING.String(),
-										sm.STOP.String(),
-										sm.CONFIGURED.String(),
-										nil,
-										env.Id(),
-									)
-									taskman.MessageChannel <- taskmanMessage
-									<-env.stateChangedCh
-								}
+							}
+							toStop := env.Workflow().GetTasks().Filtered(func(t *task.Task) bool {
+								t.SetSafeToStop(true)
+								return t.IsSafeToStop()
 							})
-							break WORKFLOW_STATE_LOOP
-						}
-					}
-					if wfState == sm.DONE {
+							if len(toStop) > 0 {
+								taskmanMessage := task.NewTransitionTaskMessage(
+									toStop,
+									sm.RUNNING.String(),
+									sm.STOP.String(),
+									sm.CONFIGURED.String(),
+									nil,
+									env.Id(),
+								)
+								taskman.MessageChannel <- taskmanMessage
+								<-env.stateChangedCh
+							}
+						})
 						break WORKFLOW_STATE_LOOP
 					}
-				case <-env.unsubscribe:
+				}
+				if wfState == sm.DONE {
 					break WORKFLOW_STATE_LOOP
 				}
+			case <-env.unsubscribe:
+				break WORKFLOW_STATE_LOOP
 			}
 		}
 	}()
